@@ -332,10 +332,15 @@ func cmdCheck(args []string) {
 		return retry
 	}
 	if os.Getenv("GOVC_NO_RETRY") == "" {
-		for pass, rc := range []*SolverCfg{
+		passes := []*SolverCfg{
 			{TimeoutS: 30, Dir: dir, Jobs: (runtime.NumCPU() + 2) / 3, Seed: seed},
 			{TimeoutS: 60, Dir: dir, Jobs: (runtime.NumCPU() + 2) / 3, Seed: seed + 7},
-		} {
+		}
+		if os.Getenv("GOVC_SHORT_RETRY") != "" {
+			// the must-fail corpus: an obligation that is expected to fail need not be tried for long
+			passes = []*SolverCfg{{TimeoutS: 20, Dir: dir, Jobs: (runtime.NumCPU() + 2) / 3, Seed: seed}}
+		}
+		for pass, rc := range passes {
 			retry := collectRetry()
 			if len(retry) == 0 {
 				break
